@@ -48,7 +48,7 @@ BASES = [
 ]
 
 DIFFER_VARIANTS = ["value", "rename", "droprow", "swaprows", "swapcols", "addcol", "dropcol", "addrow",
-                   "tiny", "case", "space", "swapcolvalues", "lastrow", "lastcol", "nfd", "longtail", "bigint"]
+                   "tiny", "case", "space", "swapcolvalues", "lastrow", "lastcol", "nfd", "longtail", "bigint", "ulp", "infnan"]
 GREY_VARIANTS = ["dtype", "index", "negzero", "boolint", "object"]
 
 
@@ -98,6 +98,16 @@ def vary(spec, kind: str, r) -> Dict[str, Any]:
         if ic:
             c = r.choice(ic)
             c["values"][r.randrange(n)] = 2 ** 53 + 1
+    elif kind in ("ulp", "infnan") and n > 0:
+        fl = [c for c in cols if c["dtype"] == "float64"]
+        if fl:
+            c = r.choice(fl)
+            i = r.randrange(n)
+            v = c["values"][i]
+            if kind == "ulp":
+                c["values"][i] = 7.25 if v is None else math.nextafter(float(v), math.inf)
+            else:
+                c["values"][i] = "inf" if v is None else None  # None <-> +inf (JSON spec cannot hold inf: encoded as a tag)
     elif kind == "swapcolvalues":
         for dt in ("int64", "float64", None):
             same = [c for c in cols if c["dtype"] == dt]
@@ -175,7 +185,7 @@ def build_frame(spec):
         elif c["dtype"] == "object":
             data[c["name"]] = pd.Series(list(c["values"]), dtype="object")
         else:
-            vals = [float("nan") if v is None else v for v in c["values"]]
+            vals = [float("nan") if v is None else (float("inf") if v == "inf" else v) for v in c["values"]]
             data[c["name"]] = pd.Series(vals, dtype=c["dtype"])
     df = pd.DataFrame(data)
     if spec["index"] is not None:
